@@ -128,10 +128,19 @@ def shape_exact_body(ctx, case):
     got = _call_shape(case["name"], x, (x0, y0), (x1, y1), e)
     t = (x - x0) / (x1 - x0)
     want = y0 + (y1 - y0) * closed_form(case["name"], t, 1 - t, e)
-    if got != want:
-        raise Violation(f"{SHAPES[case['name']]} exact: got {got}, closed form {want} (t={t}, exponent {e})")
-    if case["k"] == 0 and got != y0 or case["k"] == case["w"] and got != y1:
-        raise Violation(f"{SHAPES[case['name']]} exact: end point missed")
+    if isinstance(got, Fraction) or (isinstance(got, int) and not isinstance(got, bool)):
+        if got != want:
+            raise Violation(f"{SHAPES[case['name']]} exact: got {got}, closed form {want} (t={t}, exponent {e})")
+        if case["k"] == 0 and got != y0 or case["k"] == case["w"] and got != y1:
+            raise Violation(f"{SHAPES[case['name']]} exact: end point missed")
+    else:
+        # a shape function that answers in floating point (e.g. converts its result with float()): the same closed
+        # form and end points, to rounding
+        ctx.count("shape-judged-in-floats")
+        g = float(got)
+        scale = max(abs(float(y0)), abs(float(y1)), 1e-300)
+        if abs(g - float(want)) > 1e-12 * scale:
+            raise Violation(f"{SHAPES[case['name']]}: got {g!r}, closed form {float(want)!r} (= {want}; t={t}, exponent {e})")
     ctx.record(case, [case["name"], f"exp={e}"], 0 < case["k"] < case["w"] and y0 != y1)
 
 
